@@ -663,6 +663,7 @@ pub fn main_emit(args: &[String]) -> i32 {
         },
         "xpose" => xpose_cases(&mut rng, cases, &mut out),
         "safe" => crate::emit_safe::safe_cases(seed, cases, &mut out),
+        "abuf" => crate::emit_abuf::abuf_cases(&mut crate::prng::Rng::new(seed ^ 0xab0f), cases, &mut out),
         other => {
             eprintln!("unknown level {other}");
             return 2;
